@@ -14,8 +14,8 @@ RULES = {
 CONTROL_REV = '078b142'  # thorough tier: the rules must still report the defects found (and since fixed) on the original tree
 CONTROLS = [('C04.R3', 'AffTree::generic_composition_inplace#call:Tree::remove_child'), ('C04.R3', 'AffTree::infeasible_elimination#call:Tree::try_remove_child')]
 WRAPPERS = {
-    'AffTree::add_terminal': ('Tree::add_child_node(self.tree, node, label, AffContent::new(aff))', [], 'attaches a fresh node (state Indeterminate) holding aff under (node, label)'),
-    'AffTree::add_decision': ('Tree::add_child_node(self.tree, node, label, AffContent::new(aff))', [], 'attaches a fresh node (state Indeterminate) holding aff under (node, label)'),
+    'AffTree::add_terminal': (['Tree::add_child_node(self.tree, node, label, AffContent::new(aff))', 'AffTree::add_child_node(self, node, label, aff)'], [], 'attaches a fresh node (state Indeterminate) holding aff under (node, label)'),
+    'AffTree::add_decision': (['Tree::add_child_node(self.tree, node, label, AffContent::new(aff))', 'AffTree::add_child_node(self, node, label, aff)'], [], 'attaches a fresh node (state Indeterminate) holding aff under (node, label)'),
     'AffTree::add_child_node': ('Tree::add_child_node(self.tree, node, label, AffContent::new(aff))', [], 'attaches a fresh node (state Indeterminate) holding aff under (node, label)'),
     'AffTree::from_tree': ('AffTree::AffTree{tree, dim, RefCell::new(Vec::new())}', [], 'wraps the tree with the given input dimension and an empty scratch cache'),
 }
